@@ -52,7 +52,7 @@ LexDevs == {"Dev_UnterminatedComment",     \* _skip_whitespace: end of input ins
 OperandEnd == {"id", "num", "str", "regex", ")", "]", "}"}     \* after these a '/' is a division
 
 NoErr == [k |-> "none", s0 |-> 0, s1 |-> 0, exact |-> FALSE, lenient |-> FALSE]
-St0(userx) == [m |-> "d", pos |-> 0, line |-> 1, col |-> 1, idle |-> 0,
+St0(userx) == [m |-> "d", pos |-> 0, line |-> 1, col |-> 1, idle |-> 0, mxi |-> 0,
                ts |-> 0, tl |-> 1, tc |-> 1, acc |-> "", cnt |-> 0, q |-> "", cls |-> FALSE,
                rx |-> TRUE, userx |-> userx, out |-> <<>>, err |-> NoErr, fired |-> {}]
 
@@ -145,11 +145,13 @@ Step(st, c, dv) ==
     [] md = "esc" ->
          IF c = "x" THEN AdvTo(st, c, "hx2")
          ELSE IF c = "u" THEN AdvTo(st, c, "u0")
-         ELSE IF c = "0" THEN (IF "Dev_OctalEscape" \in dv THEN AdvTo(st, c, "str") ELSE AdvTo(st, c, "esc0"))
+         ELSE IF c = "0" THEN AdvTo(st, c, "esc0")
          ELSE IF c \in Digits THEN (IF "Dev_OctalEscape" \in dv THEN Fire(AdvTo(st, c, "str"), "Dev_OctalEscape")
                                     ELSE ErrAt(st, c, "octal-escape", FALSE, FALSE))
          ELSE AdvTo(st, c, "str")                                  \* single-character, identity escape, line continuation
-    [] md = "esc0" -> IF c \in Digits THEN ErrAt(st, c, "octal-escape", FALSE, FALSE) ELSE [st EXCEPT !.m = "str", !.idle = @ + 1]
+    [] md = "esc0" -> IF c \in Digits /\ "Dev_OctalEscape" \notin dv THEN ErrAt(st, c, "octal-escape", FALSE, FALSE)
+                      ELSE IF c \in Digits THEN Fire([st EXCEPT !.m = "str", !.idle = @ + 1], "Dev_OctalEscape")
+                      ELSE [st EXCEPT !.m = "str", !.idle = @ + 1]
     [] md = "hx2" -> IF c \in HexDigits THEN AdvTo(st, c, "hx1") ELSE ErrAt(st, c, "bad-escape", FALSE, c \in {"sp", "nl", "+"})
     [] md = "hx1" -> IF c \in HexDigits THEN AdvTo(st, c, "str") ELSE ErrAt(st, c, "bad-escape", FALSE, c \in {"sp", "nl"})
     [] md = "u0" -> IF c = "{" THEN AdvTo(st, c, "ub0") ELSE IF c \in HexDigits THEN [AdvTo(st, c, "un") EXCEPT !.cnt = 3]
@@ -178,7 +180,8 @@ Finish(st, dv) ==
   LET md == st.m
       errEnd(kind) == [st EXCEPT !.m = "dead", !.err = [k |-> kind, s0 |-> st.ts, s1 |-> st.pos, exact |-> FALSE, lenient |-> FALSE]]
   IN
-  CASE md \in {"d", "dead", "lc"} -> st
+  CASE md \in {"d", "dead"} -> st
+    [] md = "lc" -> [st EXCEPT !.m = "d"]
     [] md = "id" -> EmitC(st, "id")
     [] md \in {"z", "int", "frac", "exp", "hex", "bin", "oct"} -> EmitC(st, "num")
     [] md = "intdot" -> LET s1 == Fire(EmitC(st, "num"), "Dev_TrailingDot")
@@ -201,7 +204,8 @@ Finish(st, dv) ==
 RECURSIVE RunFrom(_, _, _)
 RunFrom(st, inp, dv) ==
   IF st.pos >= Len(inp) THEN st
-  ELSE LET s1 == Step(st, inp[st.pos + 1], dv) IN
+  ELSE LET s0 == Step(st, inp[st.pos + 1], dv)
+           s1 == IF s0.idle > s0.mxi THEN [s0 EXCEPT !.mxi = s0.idle] ELSE s0 IN
        IF s1.pos > st.pos THEN RunFrom(s1, inp, dv)
        ELSE IF s1.idle > 2 THEN s1                      \* no progress: reported by the Progress law, never reached
        ELSE RunFrom(s1, inp, dv)
@@ -239,6 +243,7 @@ TokensSane(inp, st) ==
         OffsetOf(inp, st.out[ti].line, st.out[ti].col) < OffsetOf(inp, st.out[ti + 1].line, st.out[ti + 1].col)
 ResultSane(inp, st) ==
   /\ st.pos = Len(inp)                                                \* every character consumed exactly once
+  /\ st.mxi <= 1                                                      \* progress: at most one epsilon move between two characters
   /\ st.line = 1 + NlCount(inp)
   /\ OffsetOf(inp, st.line, st.col) = Len(inp)                        \* the final position is the end of the text
   /\ TokensSane(inp, st)
